@@ -244,6 +244,11 @@ class Impl:
             nm = app_name(a['name'])
             if nm in self.cell.apps:
                 self.cell.add_app(alloc, self.cell.apps[nm])
+            elif a.get('order') == 0:
+                # a re-assignment record (the generator's stub for "move this instance to another allocation") for an
+                # instance that no longer exists - a schedule-once instance the loader's restore removed: the loader
+                # would not submit it again under other attributes
+                return 'noop'
             else:
                 self.next_order = a['order']
                 self.aff_ids[aff_name(a['aff'])] = a['aff']
